@@ -4,7 +4,7 @@ from cgsim import gen as G, ref
 from cgsim.core import fp, Skip, state_digest
 
 ID = "C05"
-QUICK = dict(worlds=16, runs=800, seconds=25)
+QUICK = dict(worlds=16, runs=800, seconds=15)
 THOROUGH = dict(worlds=256, runs=5000, seconds=30)
 RULE = ("seeded lint-clean circuit x one of limit_fanin/limit_fanout/insert_registers/acyclic_unroll; distinct = "
         "canonical net + op + k; non-trivial = the transform actually had something to do (arity or fan-out above k, "
